@@ -7,10 +7,54 @@ TRUST = "rustc; the harness's reference model (cross-checked against the real co
 
 # id -> (category, technique, level text, design ref, note)
 CHECKS = {
+ "C01": ("exploration",
+         "bounded exhaustive enumeration of class files (assembler encodings × instruction shapes × pool/attribute orders + javac corpus) through the real reader, compared fact-by-fact with an independent strict JVMS parser",
+         "Every class of explicitly enumerated spaces (384 instruction samples × 3 forms × 3 pool orders; every instruction sequence of length ≤3/4 over the 29-symbol decoding-arm alphabet with every branch target; 3^8 per-site form product; 720 pool permutations; rotations/padding/two-slot insertions of a large pool; attribute orders and contents of 6 kitchen-sink variants; every class-file version 45.3..67.0 incl. preview minors; boundary Utf8 strings in every role; 357 javac-17 corpus classes; thorough: all of java.base) is read by the real duke::read_class, projected into an encoding-free model and compared fact-by-fact with what an independent strict parser reads from the same bytes and with the model the assembler started from (three-way; oracle self-check failure is exit 2).",
+         "DESIGN.md §2 C01", TRUST + "; cfmodel (parser/assembler pair, self-checked on java.base)"),
  "C03": ("model_checking",
          "explicit-state BFS (stateright) over insertion histories of the real Mappings object + exhaustive line-sequence enumeration through the real reader",
          "Every insertion history (every order of inserting the classes/fields/methods/parameters/comments of a small universe, 2..4 namespaces, missing-name patterns, comment alphabet) is a state; on every state the real writer, reader and writer again run and are compared with an independent reference reader/model: round trip, text states exactly the content, all histories of one content give identical bytes, fixed point. Plus every sequence of <=L lines over a 9-line alphabet through the real reader against the reference reading (no merge/loss/re-parenting).",
          "DESIGN.md §2 C03", TRUST + "; stateright's BFS exhaustiveness"),
+ "C04": ("model_checking",
+         "explicit-state BFS over (mapping set, applied-diff count) with the real apply_to as transition function in lock-step with a reference apply; all-pairs diff→apply (→ .tinydiff text → read_file → apply) on the reached state set; full truth table of apply_diff_option",
+         "States are two-namespace mapping sets reached from three initial sets by applying every single-slot diff of the action alphabet (None/Add/Remove/Edit with matching and mismatching old values at class, field, method, parameter and comment level, present and absent targets; parent+child two-slot diffs) with the REAL MappingsDiff::apply_to, to depth 2 (thorough 3). Every transition is compared with a reference apply written from the statement: exact change, untouched entries identical, every inconsistent combination refused. On the reached set every ordered pair (A,B) goes through the real diff() and apply_to, and through the .tinydiff text form; apply_diff_option's 4×3 table is complete.",
+         "DESIGN.md §2 C04", TRUST),
+ "C05": ("model_checking",
+         "exhaustive enumeration of version directories (graph shapes × node labellings × naming × listing orders on tmpfs) through the real VersionGraph, compared with a reference fold of diffs along every path",
+         "A state is one directory on disk: every rooted DAG shape on ≤3 (thorough 4) versions × every assignment of a mapping state from a pool closed under single edits × plain/split (a~b) names × controlled read_dir listing orders (all permutations for ≤5 files), plus every single malformation (no root, two roots, cycle, unreachable version, unknown name, mismatching diff). The real /repo/src/version_graph.rs (compiled through a #[path] shim) resolves each directory; versions(), get() for every plain and split name and apply_diffs() for every version must equal the reference reading, identically for every listing order; malformed directories must be refused.",
+         "DESIGN.md §2 C05", TRUST + "; tmpfs listing order calibrated and re-observed at run time"),
+ "C06": ("exploration",
+         "exhaustive enumeration of mapping tables × descriptor-grammar strings × super-type graphs × member queries through the real ARemapper/BRemapper",
+         "Every descriptor the JVMS grammar derives with ≤3 components over 13 atoms (and every string ≤5 over the descriptor alphabet for the failure paths), every state of 7 class slots (absent / renamed / identity / colliding), 2 and 3 namespaces with every (from,to) direction, every super-type DAG on 4 classes with ordered super lists ≤2, members declared in every subset of classes with partial name rows: every query is asked of remappers built by the real remapper_a/remapper_b and compared with a reference lookup written from the statement (shape preservation, nearest declaring super type in declaration order, identity fallback, X→Y→X identity on injective sets).",
+         "DESIGN.md §2 C06", TRUST),
+ "C08": ("model_checking",
+         "explicit-state BFS over the Cayley graph of namespace permutations with the real Mappings::reorder as transition function, lock-step against a reference reorder",
+         "States are (initial mapping set, permutation so far, set produced by the real code); actions are the generators of S_N (N=2..4). Every transition rebuilds a real Mappings, calls the real reorder and is compared with the reference (rows permuted, entries re-keyed, descriptors translated old-first→new-first, comments and parameter indices untouched); path independence, inverse and identity laws are checked on every state; missing new-first names and re-key collisions must be refused.",
+         "DESIGN.md §2 C08", TRUST),
+ "C09": ("exploration",
+         "exhaustive enumeration of pairs of mapping sets through the real Mappings::merge, judged by a reference join and the projection law",
+         "Every pair (A,B) from a generator in which each key at each level is in only A / only B / both, names present or absent per side, comments none/A/B/equal/different, conflicting descriptors, parameter indices and first namespaces: the real merge result must have the key union, column placement and comment choice of the reference, both projections must return A and B exactly, and the stated error cases must be refused.",
+         "DESIGN.md §2 C09", TRUST),
+ "C10": ("exploration",
+         "full truth-table enumeration of mapping sets / diffs through the real remove_dummy and insert_dummy_and_contract_inner_names",
+         "remove_dummy: every one-class mapping set over the placeholder alphabet (C_/f_/m_/p_ prefixes as prefix, infix and absent; <init>/<clinit>; unmapped package) × comments × children; insert_dummy_and_contract_inner_names: every diff with each of 6 name actions × 5 comment actions at each of 4 levels for top-level and inner class keys. Each case runs the real function twice (result + idempotence) against the documented rules applied bottom-up.",
+         "DESIGN.md §2 C10", TRUST),
+ "C11": ("model_checking",
+         "explicit-state BFS with two actions (extend, contract) over mapping sets, real functions as transition function, lock-step against a reference extension",
+         "States are mapping sets over every subset of 7 class keys (nesting depth 4, packages, orphan inner classes) with target names absent/simple/already extended, N=2 and 3; actions extend:<ns>/contract:<ns> call the real extend_inner_class_names / contract_inner_class_names to depth 3; every transition is compared with the reference; contract∘extend = id on simple names; missing outer classes must be refused; duke's split/join helpers are swept exhaustively over short names.",
+         "DESIGN.md §2 C11", TRUST),
+ "C12": ("exploration",
+         "exhaustive enumeration of two-namespace mapping sets (nesting, orphans, comment alphabet, insertion orders) through the real Enigma writer and reader, stream and directory",
+         "Every mapping set of several completely enumerated universes (nesting to depth 3, orphan inner classes, unnamed classes, packages, parameters with comments, 13-comment alphabet incl. blank lines, leading spaces and #) is written by the real write_all / enigma_dir::write and read back by read_into / enigma_dir::read on tmpfs in three insertion orders; result must equal the set, text must equal an independent reference reading, every class in exactly one file, output identical across insertion orders.",
+         "DESIGN.md §2 C12", TRUST),
+ "C18": ("exploration",
+         "exhaustive enumeration of all strings up to a length bound over the descriptor and name alphabets through the real parsers/predicates against an independent JVMS recogniser",
+         "All 3.2M strings of length ≤6 (thorough ≤7) over BDLa/;[()V.$ through field/method/return parse: accepted exactly when in the JVMS language, structure equal to the reference structure, write∘parse and parse∘write identities (dimensions 1,2,254,255,256,257 explicit); all strings ≤6 over a.;[/<>$ plus <init>/<clinit> neighbours through the seven name predicates and TryFroms; split/join inverse laws on all short names.",
+         "DESIGN.md §2 C18", TRUST),
+ "C19": ("exploration",
+         "deviation-bounded exhaustive enumeration of POM universes served through an in-memory Downloader to the real resolver, compared with a reference resolver written from Maven's documented rules",
+         "Every dependency graph over artifacts a<b<c<d × versions {1,2} with ≤2 ordered dependencies per POM, and every 1- and 2-deviation (thorough 3) variant over scopes, optional, managed versions/scopes in own/parent/imported BOM, classifier/type, parents providing group/version/dependencies, second repository, root order and scopes, XML renderings: the real get_maven_dependencies must return the reference's breadth-first duplicate-free list (nearest wins, declaration-order ties, loser subtrees discarded); Display/parse round trips of all generated coordinates.",
+         "DESIGN.md §2 C19", TRUST),
 }
 
 NOT_YET = {}
@@ -43,7 +87,7 @@ def main():
             "guard": "cargo feature `verif` of crate duke (off by default)",
             "enable": "the harness depends on /repo/duke by path with features=[\"verif\"]; nothing else is changed",
             "baseline_off_cmd": "cd /repo && cargo nextest run --workspace --no-fail-fast --test-threads 8 --offline || cargo test --workspace --no-fail-fast --offline",
-            "source_commits": [],
+            "source_commits": ["202f4bb"],
             "add_only": True,
         },
         "engines": [
